@@ -113,8 +113,8 @@ QAlphaOf(fn) == IF fn \in NatFns THEN QAlphaNat ELSE QAlpha2
 RECURSIVE QStrs(_, _)
 QStrs(A, k) == IF k = 0 THEN {<<>>} ELSE LET S == QStrs(A, k - 1) IN S \cup {Append(x, c) : x \in {t \in S : Len(t) = k - 1}, c \in A}
 TwoOp(fn) == fn \in CmpFns \cup NatFns \cup MemCmpFns \cup FindFns \cup SpanFns \cup IdxFns \cup {"strprefix_s"}
-QHasSlen(fn) == fn \in MemCmpFns \cup FindFns \cup SpanFns \cup {"wcscmp_s", "wcsncmp_s", "wcsicmp_s", "wcsnatcmp_s", "wcsnaticmp_s"}
-QWidth(fn) == IF fn \in {"wcscmp_s", "wcsncmp_s", "wcsicmp_s", "wcsnatcmp_s", "wcsnaticmp_s", "wcsstr_s", "wcsnlen_s", "wmemcmp_s", "memcmp32_s"} THEN 4 ELSE IF fn = "memcmp16_s" THEN 2 ELSE 1
+QHasSlen(fn) == fn \in MemCmpFns \cup FindFns \cup SpanFns \cup {"wcscmp_s", "wcsncmp_s", "wcsicmp_s", "wcscoll_s", "wcsnatcmp_s", "wcsnaticmp_s"}
+QWidth(fn) == IF fn \in {"wcscmp_s", "wcsncmp_s", "wcsicmp_s", "wcscoll_s", "wcsnatcmp_s", "wcsnaticmp_s", "wcsstr_s", "wcsnlen_s", "wmemcmp_s", "memcmp32_s"} THEN 4 ELSE IF fn = "memcmp16_s" THEN 2 ELSE 1
 NextQuery ==
   /\ st.f \in StrQueryFns
   /\ \E dmax \in Sizes \cup {K + 1}, dstr \in (IF TwoOp(st.f) THEN QStrs(QAlphaOf(st.f), K) ELSE QStrs(QAlpha1, 2)), dterm \in BOOLEAN,
